@@ -41,7 +41,7 @@ FUNCS = [
 TASK = Task("onset", FUNCS, pair_space, single_space)
 
 
-TASK.edges = {"shift": {"apply": B._shift, "funcs": None, "keys": None}}
+TASK.edges = {"shift": {"apply": B._shift, "funcs": None, "keys": None, "cfgs": "all"}}
 
 
 # ---- repository fixtures (model bound to the recorded outputs; perturbed fixtures as extra C04 states)
